@@ -745,7 +745,7 @@ var (
 	c09ArgBigInts = []int64{9007199254740992, 9007199254740993, 9007199254740994, -9007199254740992, -9007199254740993,
 		4611686018427387904, 4611686018427387905, -4611686018427387905, 1, 0}
 	c09ArgFloats = []float64{0.5, 1.5, 2.25, -1.5, 5.9, 0.25, 3, 2.5, -5.9, 10.9, 0.1, 7}
-	c09ArgTexts  = []string{"5", "5.9", "-5", "-5.9", "7", "2.5", "0.25", "12", "x", "", "-6", "3.0"}
+	c09ArgTexts  = []string{"5", "5.9", "-5", "-5.9", "7", "2.5", "0.25", "12", "x", "", "-6", "3.0", "010", "-010", "0017", "08", "007.5"} // (zero-padded numerals are decimal)
 	c09ArgWords  = []string{"x", "y z", "a,b", "", "p|q", "<a&b>", "q\"t"}
 	c09NumFns    = []string{"count", "sum", "avg", "min", "max"}
 	c09AllFns    = []string{"count", "sum", "avg", "min", "max", "json_arrayagg", "group_concat"}
@@ -1022,7 +1022,7 @@ var c09ArgExprs = []struct{ Text, Oracle, Kind string }{
 
 var (
 	c09Keys   = []string{"a", "a1", "a12", "ab", "abc", "b", "b1", "bc", "1", "11", "12", "2", "A", "aB"}
-	c09Values = []string{"1", "12", "2", "21", "5", "5.9", "2.5", "0.25", "-3", "10", "c", "bc", "", "-5.9", "7", "2.5000001"}
+	c09Values = []string{"1", "12", "2", "21", "5", "5.9", "2.5", "0.25", "-3", "10", "c", "bc", "", "-5.9", "7", "2.5000001", "010", "-010", "0017"}
 	c09Wheres = []string{"true", "key ^= 'a'", "key > 'a1'", "value != '5'", "key ^= 'zz'", "key in ('a', 'ab', 'b1', '1', '11')"}
 )
 
